@@ -249,6 +249,14 @@ func (s *Solver) Check() SatResult {
 	start := time.Now()
 	s.send("(check-sat)")
 	s.in.Flush()
+	// hard stop: a solver that does not honour its own timeout is killed (the context is lost
+	// and every later answer is "unknown")
+	watchdog := time.AfterFunc(time.Duration(s.timeout)*time.Millisecond+8*time.Second, func() {
+		if s.cmd != nil && s.cmd.Process != nil {
+			s.cmd.Process.Kill()
+		}
+	})
+	defer watchdog.Stop()
 	res := Unknown
 	sawErr := false
 	for {
